@@ -177,11 +177,13 @@ def main():
              "/-! generated by harness/gen/gen_templates.py from strawberryfields/ops.py — do not edit -/",
              "namespace SFV.Param", "",
              "/-- `_decompose` of the operations whose decomposition is straight-line code over their parameters -/",
-             "def template : String → Option (List TCmd)"]
+             "def templateTable : List (String × List TCmd) := ["]
+    rows = []
     for name, cmds in done:
-        lines.append(f"  | {lean_str(name)} => some [")
-        lines.append(",\n".join("      " + c for c in cmds) + "]")
-    lines.append("  | _ => none")
+        rows.append(f"  ({lean_str(name)}, [\n" + ",\n".join("      " + c for c in cmds) + "])")
+    lines.append(",\n".join(rows) + "]")
+    lines.append("")
+    lines.append("def template (cls : String) : Option (List TCmd) := lookupT templateTable cls")
     lines.append("")
     lines.append("def templateNames : List String := [" + ", ".join(lean_str(n) for n, _ in done) + "]")
     lines.append("")
